@@ -1,7 +1,8 @@
 -------------------------- MODULE MC_Presentation --------------------------
 (* Read(Render(Write(r, kind))) = <<r>> for every record of a field-kind    *)
 (* grid over the escape-relevant octet alphabet, every display kind, with   *)
-(* and without an origin; and the S->I case generator.                      *)
+(* and without an origin (also through the token route and for field texts *)
+(* on their own); and the S->I case generator with alias routes.           *)
 EXTENDS Presentation, TLC, Json
 
 CONSTANT MaxStr      \* longest label / string built from the alphabet
@@ -57,16 +58,17 @@ FieldTextsReadEqualWritten ==
 \* Routes: further ways to build the record (Record::new / From tuples /
 \* set_class / RecordHeader::into_record / Record::parse), its data (wire /
 \* typed constructors / builders), and to write it (as it is / as
-\* AllRecordData / through a reference / with parsed names).  They are
+\* AllRecordData / through a reference / with parsed names / through a
+\* FormatWriter of the user's own, tokens joined by one space).  They are
 \* aliases: the expectation does not depend on them.  Every case is given
 \* one combination, spread over the grid by a checksum of the record.
 MkRoutes == <<"new", "tuple_u32", "tuple_ttl", "in_default", "header", "parse">>
 MkdRoutes == <<"wire", "typed", "builder">>
-WrRoutes == <<"zone", "all", "ref", "parsed">>
+WrRoutes == <<"zone", "all", "ref", "parsed", "own">>
 RECURSIVE SumFrom(_, _)
 SumFrom(s, i) == IF i > Len(s) THEN 0 ELSE (s[i] + 31 * SumFrom(s, i + 1)) % 100003
 Sum(s) == SumFrom(s, 1)
-RouteOf(h) == <<MkRoutes[1 + (h % 6)], MkdRoutes[1 + ((h \div 6) % 3)], WrRoutes[1 + ((h \div 18) % 4)]>>
+RouteOf(h) == <<MkRoutes[1 + (h % 6)], MkdRoutes[1 + ((h \div 6) % 3)], WrRoutes[1 + ((h \div 18) % 5)]>>
 
 --------------------------------------------------------------------------
 ReaderDevs == AllDevs      \* the reader as the code has it today (C07's findings)
@@ -82,7 +84,9 @@ Emit ==
               ctexts |-> [i \in 1..Len(strs) |-> [s |-> strs[i], t |-> WUnquoted(strs[i])]]]
       tokRead(dv) == ReadTokens(r.rd.t, RdTokens(r.rd, kind, {}), dv)
       tokOut(dv) == IF tokRead(dv) = [rd |-> RdWire(r.rd)] THEN "eq" ELSE tokRead(dv)
-      rest(dv) == [spec |-> "eq", tok |-> tokOut(dv), lbl |-> "eq", cs |-> "eq"]
+      \* tokm: the generic form through the routes that take the "\#" marker
+      \* themselves (UnknownRecordData::scan, base16::decode_vec on the hex words)
+      rest(dv) == [spec |-> "eq", tok |-> tokOut(dv), tokm |-> tokOut({}), lbl |-> "eq", cs |-> "eq"]
       expd == [lib |-> "eq"] @@ rest({})
       \* what the reader makes of the text the code writes today
       o0 == ReadBack(code, origin, {})
